@@ -111,13 +111,24 @@ KindCase(k) ==
       six == (r \div 2) % 2 = 1
   IN [ol |-> ol, h |-> WithOpts([BaseHdr(IF six THEN 6 ELSE 4) EXCEPT !.flags = IF six THEN SYN + ACK ELSE SYN, !.ack = IF six THEN NZ4 ELSE Zero4], OptArea(ol))]
 
+\* ---- mtu: a SYN for every value listed under a link label of the database, and its two neighbours, IPv4 and IPv6, with 20 octets of
+\* options (so that the deviation D03_mtu_headers does not decide): the label is the one of the FIRST group that lists the value,
+\* wherever in the group's list the value stands
+MtuVals == SetToSeq({m \in UNION {UNION {{Groups[g].sigs[i] - 1, Groups[g].sigs[i], Groups[g].sigs[i] + 1} : i \in 1..Len(Groups[g].sigs)} : g \in 1..Len(Groups)} : m >= 61 /\ m <= 65535})
+NMtu == 2 * Len(MtuVals)
+MtuCase(k) ==
+  LET m == MtuVals[(k % Len(MtuVals)) + 1]  six == k >= Len(MtuVals)
+      ol == [StdOpts EXCEPT !.opts[1].v = m - (IF six THEN 60 ELSE 40)]
+  IN [ol |-> ol, h |-> WithOpts([BaseHdr(IF six THEN 6 ELSE 4) EXCEPT !.flags = SYN, !.ack = Zero4], OptArea(ol))]
+
 CaseOf(k) == CASE Fam = "hdr4" -> [link |-> "eth", h |-> Hdr4(k), ol |-> StdOpts]
                [] Fam = "hdr6" -> [link |-> "eth", h |-> Hdr6(k), ol |-> StdOpts]
                [] Fam = "ttl"  -> [link |-> TtlCase(k).link, h |-> TtlCase(k).h, ol |-> StdOpts]
                [] Fam = "opt"  -> [link |-> "eth", h |-> OptCase(k).h, ol |-> OptCase(k).ol]
                [] Fam = "fopt" -> [link |-> "eth", h |-> FoptCase(k).h, ol |-> FoptCase(k).ol]
                [] Fam = "kind" -> [link |-> "eth", h |-> KindCase(k).h, ol |-> KindCase(k).ol]
-NOf == CASE Fam = "hdr4" -> NHdr4 [] Fam = "hdr6" -> NHdr6 [] Fam = "ttl" -> NTtl [] Fam = "opt" -> NOpt [] Fam = "fopt" -> NFopt [] Fam = "kind" -> NKind
+               [] Fam = "mtu"  -> [link |-> "eth", h |-> MtuCase(k).h, ol |-> MtuCase(k).ol]
+NOf == CASE Fam = "hdr4" -> NHdr4 [] Fam = "hdr6" -> NHdr6 [] Fam = "ttl" -> NTtl [] Fam = "opt" -> NOpt [] Fam = "fopt" -> NFopt [] Fam = "kind" -> NKind [] Fam = "mtu" -> NMtu
 
 DevSets == SUBSET AllD03 \ {{}}
 Emit(k) ==
